@@ -4,7 +4,7 @@ import Gimli.Lemmas.Package
 import Gimli.Lemmas.Names
 import Gimli.Lemmas.NamesEntries
 import Gimli.Lemmas.Pub
-import Gimli.Lemmas.Attr
+import Gimli.Lemmas.C17Attr
 import Gimli.Model.Loader
 /-!
 # C17 — Accelerated lookups and section plumbing agree with exhaustive scans
